@@ -276,6 +276,11 @@ Record fin_obs := mkFO {
   fo_returned : bool }.     (* dispatchConnection returned at once *)
 Definition finish_tls (write_ok : bool) : fin_obs :=
   if write_ok then mkFO true false false else mkFO false true true.
+(* WebSocket.makeResponder: net/http + gorilla write the "101 Switching Protocols" response first (black box), then
+   the 60-byte reply is one Write on the upgraded connection; when THAT Write fails the responder closes the
+   connection and returns the error, dispatchConnection returns.  The 101 response has reached the peer. *)
+Definition finish_ws (reply_write_ok : bool) : fin_obs :=
+  if reply_write_ok then mkFO true false false else mkFO true true true.
 
 (* is the connection handed to the redirect target? *)
 Definition relays (o : conn_outcome) : bool := match o with OWeb _ _ => true | _ => false end.
